@@ -347,7 +347,7 @@ fn plans(prop: &str, tier: Tier) -> Vec<Plan> {
                     c.variant = variant;
                     let d = if q { vec![6, 6, 6] } else { vec![9, 9, 8, 7] };
                     v.push(Plan { cfg: c.clone(), depth_by_devs: d });
-                    if !q && limit == 2 && variant == 0 {
+                    if !q && limit == 2 && (variant == 0 || variant == 2) {
                         c.throttle_ms = 1;
                         v.push(Plan { cfg: c, depth_by_devs: vec![8, 8, 7] });
                     }
